@@ -336,6 +336,29 @@ def error_paths(ctx):
         for h in hs:
             rs = [r for r in ast.walk(h.ast) if isinstance(r, ast.Raise)]
             ctx.ob(len(rs) == 1 and is_subclass_name(p, mu, rs[0], 'UsageError'), mu, 'and reported as a usage error', node=h.ast)
+    # the text handed to the parsers is the text that was read: whichever source it came from
+    # (argument, file, stdin) it is not edited on the way (no strip / replace / decode step)
+    Rm = mw_roles(ctx)
+    for role, extra in (('target_text', ()), ('spec_text', ('repr(%s)' % Rm['spec_text'],))):
+        var = Rm[role]
+        for n in mu.own_nodes():
+            vals = []
+            if isinstance(n, ast.Assign):
+                for t in n.targets:
+                    if is_name(t, var):
+                        vals.append(n.value)
+                    elif isinstance(t, ast.Tuple) and isinstance(n.value, ast.Tuple) and len(t.elts) == len(n.value.elts):
+                        vals += [v for tt, v in zip(t.elts, n.value.elts) if is_name(tt, var)]
+                    elif isinstance(t, ast.Tuple) and any(is_name(tt, var) for tt in t.elts):
+                        vals.append(n.value)
+            for v in vals:
+                txt = norm(v)
+                ok = isinstance(v, ast.Constant) and v.value is None or is_name(v, mu.params[1]) \
+                    or matches(v, '%s[$$i]' % mu.params[1]) or txt in extra \
+                    or matches(v, 'sys.stdin.read()') or matches(v, '$f.read()') or matches(v, 'open($$p).read()')
+                ctx.ob(ok, mu, 'the %s is taken as read: %s = %s' % (role.replace('_', ' '), var, txt),
+                       '' if ok else 'the text is transformed before it is parsed: a file source then disagrees with the '
+                       'same text given as an argument or on stdin', node=n)
     # unknown spec format
     last = [n for n in ast.walk(mu.node) if isinstance(n, ast.If) and norm(n.test) == "spec_format == 'python-full'"]
     ok = len(last) == 1 and len(last[0].orelse) == 1 and isinstance(last[0].orelse[0], ast.Raise) and is_subclass_name(p, mu, last[0].orelse[0], 'UsageError')
